@@ -193,7 +193,7 @@ theorem spec2_filterMap (hi : E .index) (hbud : E .budget) (cfg : CheckCfg) (c :
       obtain ⟨⟨Vb, hVb⟩, hfs⟩ := hb coll bto hsa hsb
       have hbsome : ∃ bt, bto = some bt := by
         cases bto with
-        | none => simp [vtyOf, OTy.kind, RKind.isScalar, sliceElemKind, isAnySlice] at hVb
+        | none => simp [vtyOf, OTy.kind, RKind.isScalar, sliceElemKind, isAnySlice, isObjT, isMapAnyT, OTy.deref] at hVb
         | some bt => exact ⟨bt, rfl⟩
       obtain ⟨bt, rfl⟩ := hbsome
       rw [hsb] at hs
@@ -313,30 +313,47 @@ theorem spec2_filterMap (hi : E .index) (hbud : E .budget) (cfg : CheckCfg) (c :
 
 /-! ### the extended fragment -/
 
+/-- the constructs that need a hypothesis on the world: calls of environment functions, `matches`, method calls -/
+structure FragOpts where
+  calls : Bool := false
+  regex : Bool := false
+  methods : Bool := false
+  deriving DecidableEq
+
+
 mutual
 /-- literals, identifiers, `#`, the operators of the scalar fragment, `in` / `not in` / `..`, indexing,
 `len`, slicing, `all none any one count` with their closures and — with `calls` — calls of environment
 functions.  (`filter` and `map` are left out: their static result type `[]T` is not the `[]interface{}`
 the VM builds — known finding; so are members and method calls.) -/
-def inFrag2 (calls : Bool) : Node → Bool
+def inFrag2 (fo : FragOpts) : Node → Bool
   | .bool _ _ | .str _ _ | .int _ _ | .float _ _ | .ident _ _ _ | .pointer _ => true
-  | .unary _ op x => fragUnary op && inFrag2 calls x
-  | .binary _ op l r => (fragBinary op || op == "in" || op == "not in" || op == ".." || op == "**") && inFrag2 calls l && inFrag2 calls r
-  | .cond _ c a b => inFrag2 calls c && inFrag2 calls a && inFrag2 calls b
-  | .index _ x i => inFrag2 calls x && inFrag2 calls i
-  | .slice _ x none none => inFrag2 calls x
-  | .slice _ x (some f) none => inFrag2 calls x && inFrag2 calls f
-  | .slice _ x none (some t) => inFrag2 calls x && inFrag2 calls t
-  | .slice _ x (some f) (some t) => inFrag2 calls x && inFrag2 calls f && inFrag2 calls t
-  | .builtin _ name [a] => name == "len" && inFrag2 calls a
+  | .unary _ op x => fragUnary op && inFrag2 fo x
+  | .binary _ op l r => (fragBinary op || op == "in" || op == "not in" || op == ".." || op == "**") && inFrag2 fo l && inFrag2 fo r
+  | .cond _ c a b => inFrag2 fo c && inFrag2 fo a && inFrag2 fo b
+  | .index _ x i => inFrag2 fo x && inFrag2 fo i
+  | .slice _ x none none => inFrag2 fo x
+  | .slice _ x (some f) none => inFrag2 fo x && inFrag2 fo f
+  | .slice _ x none (some t) => inFrag2 fo x && inFrag2 fo t
+  | .slice _ x (some f) (some t) => inFrag2 fo x && inFrag2 fo f && inFrag2 fo t
+  | .builtin _ name [a] => name == "len" && inFrag2 fo a
   | .builtin _ name [a, .closure _ b] =>
-    (isPredBuiltin name || name == "filter" || name == "map") && inFrag2 calls a && inFrag2 calls b
-  | .func _ _ args _ => calls && inFrag2L calls args
-  | .array _ xs => inFrag2L calls xs
+    (isPredBuiltin name || name == "filter" || name == "map") && inFrag2 fo a && inFrag2 fo b
+  | .func _ _ args _ => fo.calls && inFrag2L fo args
+  | .array _ xs => inFrag2L fo xs
+  | .prop _ x _ _ => inFrag2 fo x
+  | .map _ ps => inFrag2P fo ps
+  | .method _ x _ args _ => fo.methods && inFrag2 fo x && inFrag2L fo args
+  | .matches _ _ l r => fo.regex && inFrag2 fo l && inFrag2 fo r
   | _ => false
-def inFrag2L (calls : Bool) : List Node → Bool
+def inFrag2L (fo : FragOpts) : List Node → Bool
   | [] => true
-  | a :: rest => inFrag2 calls a && inFrag2L calls rest
+  | a :: rest => inFrag2 fo a && inFrag2L fo rest
+/-- the pairs of a map literal -/
+def inFrag2P (fo : FragOpts) : List Node → Bool
+  | [] => true
+  | .pair _ k v :: rest => inFrag2 fo k && inFrag2 fo v && inFrag2P fo rest
+  | _ :: _ => false
 end
 
 def sliceOK (t : Option OTy) : Bool :=
@@ -354,7 +371,7 @@ def lenOK (t : Option OTy) : Bool :=
   match t with
   | some τ =>
     (match vtyOf τ with
-      | some V => V == .sc .string || V.isSlice
+      | some V => V == .sc .string || V.isSlice || V == .mapAny
       | none => false)
   | none => false
 
@@ -365,6 +382,55 @@ def sliceVOK (t : Option OTy) : Bool :=
     (match vtyOf τ with
       | some V => V.isSlice
       | none => false)
+  | none => false
+
+/-- the right operand of `in`: a slice, or — for a string on the left — a string-keyed map of interfaces or
+a struct -/
+def inOK (l r : Option OTy) : Bool :=
+  match l, r with
+  | some lt, some rt =>
+    (match vtyOf lt, vtyOf rt with
+      | some Vl, some Vr => Vr.isSlice || (Vl == .sc .string && (Vr == .mapAny || Vr == .obj rt))
+      | _, _ => false)
+  | _, _ => false
+
+/-- indexing a `[]interface{}` by a number or a `map[string]interface{}` by a string: an `interface{}` -/
+def idxAnyV : VTy → VTy → VTy → Bool
+  | .anys, .sc (.num _), .any => true
+  | .mapAny, .sc .string, .any => true
+  | _, _, _ => false
+
+theorem idxAnyV_cases {Vx Vi Vr : VTy} (h : idxAnyV Vx Vi Vr = true) :
+    (Vx = .anys ∧ (∃ k, Vi = .sc (.num k)) ∧ Vr = .any) ∨ (Vx = .mapAny ∧ Vi = .sc .string ∧ Vr = .any) := by
+  unfold idxAnyV at h
+  split at h
+  · exact Or.inl ⟨rfl, ⟨_, rfl⟩, rfl⟩
+  · exact Or.inr ⟨rfl, rfl, rfl⟩
+  · cases h
+
+def idxAnyOK (x i r : Option OTy) : Bool :=
+  match x, i, r with
+  | some tx, some ti, some τ =>
+    (match vtyOf tx, vtyOf ti, vtyOf τ with
+      | some Vx, some Vi, some Vr => idxAnyV Vx Vi Vr
+      | _, _, _ => false)
+  | _, _, _ => false
+
+/-- a member of a `map[string]interface{}`: an `interface{}` -/
+def propMapOK (x r : Option OTy) : Bool :=
+  match x, r with
+  | some tx, some τ => vtyOf tx == some .mapAny && vtyOf τ == some .any
+  | _, _ => false
+
+def strOK (t : Option OTy) : Bool :=
+  match t with
+  | some τ => vtyOf τ == some (.sc .string)
+  | none => false
+
+/-- a struct or pointer-to-struct type -/
+def objOK (t : Option OTy) : Bool :=
+  match t with
+  | some τ => vtyOf τ == some (.obj τ)
   | none => false
 
 /-- both branches and the conditional have one value type -/
@@ -381,14 +447,15 @@ def typed2 (cfg : CheckCfg) : List OTy → Node → Bool
   | cs, .binary m op l r =>
     (if fragBinary op then
         scalarOK (synth cfg cs (.binary m op l r)) && scalarOK (synth cfg cs l) && scalarOK (synth cfg cs r)
-     else if op == "in" || op == "not in" then vtyOK (synth cfg cs l) && sliceVOK (synth cfg cs r)
+     else if op == "in" || op == "not in" then inOK (synth cfg cs l) (synth cfg cs r)
      else scalarOK (synth cfg cs l) && scalarOK (synth cfg cs r)) &&
     typed2 cfg cs l && typed2 cfg cs r
   | cs, .cond _ c a b =>
     scalarOK (synth cfg cs c) && condOK cfg.dt (synth cfg cs a) (synth cfg cs b) &&
       typed2 cfg cs c && typed2 cfg cs a && typed2 cfg cs b
-  | cs, .index _ x i =>
-    sliceOK (synth cfg cs x) && intOK (synth cfg cs i) && typed2 cfg cs x && typed2 cfg cs i
+  | cs, .index m x i =>
+    ((sliceOK (synth cfg cs x) && intOK (synth cfg cs i)) ||
+      idxAnyOK (synth cfg cs x) (synth cfg cs i) (synth cfg cs (.index m x i))) && typed2 cfg cs x && typed2 cfg cs i
   | cs, .slice _ x none none => sliceOK (synth cfg cs x) && typed2 cfg cs x
   | cs, .slice _ x (some f) none => sliceOK (synth cfg cs x) && typed2 cfg cs x && intOK (synth cfg cs f) && typed2 cfg cs f
   | cs, .slice _ x none (some t) => sliceOK (synth cfg cs x) && typed2 cfg cs x && intOK (synth cfg cs t) && typed2 cfg cs t
@@ -413,11 +480,32 @@ def typed2 (cfg : CheckCfg) : List OTy → Node → Bool
           | .inl _ => false)
       | none => false)
   | cs, .array _ xs => typed2L cfg cs xs
+  | cs, .prop m x name ns =>
+    (objOK (synth cfg cs x) || propMapOK (synth cfg cs x) (synth cfg cs (.prop m x name ns))) && typed2 cfg cs x
+  | cs, .map _ ps => typed2P cfg cs ps
+  | cs, .method _ x name args _ =>
+    objOK (synth cfg cs x) && typed2 cfg cs x &&
+    (match synth cfg cs x with
+      | some t =>
+        (match methodTarget cfg.dn t name with
+          | some (fn, im) =>
+            (match funcPlan fn im args.length with
+              | .inr (ins, variadic, numIn, offset, _) => typed2A cfg cs ins variadic numIn offset 0 args
+              | .inl _ => false)
+          | none => false)
+      | none => false)
+  | cs, .matches _ _ l r => strOK (synth cfg cs l) && strOK (synth cfg cs r) && typed2 cfg cs l && typed2 cfg cs r
   | _, _ => true
 /-- the elements of an array literal: each has a value type of the fragment -/
 def typed2L (cfg : CheckCfg) : List OTy → List Node → Bool
   | _, [] => true
   | cs, a :: rest => vtyOK (synth cfg cs a) && typed2 cfg cs a && typed2L cfg cs rest
+/-- the pairs of a map literal: string keys, values of a value type of the fragment -/
+def typed2P (cfg : CheckCfg) : List OTy → List Node → Bool
+  | _, [] => true
+  | cs, .pair _ k v :: rest =>
+    strOK (synth cfg cs k) && vtyOK (synth cfg cs v) && typed2 cfg cs k && typed2 cfg cs v && typed2P cfg cs rest
+  | _, _ :: _ => false
 /-- the arguments of a call: each fits its parameter in the fragment's sense (`argOK`) -/
 def typed2A (cfg : CheckCfg) : List OTy → List Ty → Bool → Nat → Nat → Nat → List Node → Bool
   | _, _, _, _, _, _, [] => true
@@ -448,8 +536,9 @@ theorem intOK_elim {o : Option OTy} (h : intOK o = true) :
 mutual
 /-- **Soundness on the extended fragment**, by recursion over the tree. -/
 theorem frag2_sound (hd : E .divzero) (hi : E .index) (hbud : E .budget) (cfg : CheckCfg) (c : SCfg)
-    (henv : EnvConforms2 cfg c.env) (calls : Bool) (hw : calls = true → WorldConforms E cfg c) :
-    ∀ (n : Node) (cs : List OTy), inFrag2 calls n = true → typed2 cfg cs n = true → Spec2 E cfg c cs n
+    (henv : EnvConforms2 cfg c.env) (hdn : cfg.dn = NDefects.asIs) (fo : FragOpts) (hw : fo.calls = true → WorldConforms E cfg c)
+    (hre : fo.regex = true → RegexTotal c) (hm : fo.methods = true → MethodsConform E cfg c) :
+    ∀ (n : Node) (cs : List OTy), inFrag2 fo n = true → typed2 cfg cs n = true → Spec2 E cfg c cs n
   | .bool m b, cs, _, _ =>
     frag_to_spec2 (frag_sound hd cfg cs c (envConforms_of2 henv) (.bool m b) rfl rfl)
       (fun τ h => by simp only [synth, Option.some.injEq] at h; subst h; rfl)
@@ -467,7 +556,7 @@ theorem frag2_sound (hd : E .divzero) (hi : E .index) (hbud : E .budget) (cfg : 
   | .unary m op x, cs, hf, ht => by
     simp only [inFrag2, Bool.and_eq_true] at hf
     simp only [typed2, Bool.and_eq_true] at ht
-    have ihx := frag2_sound hd hi hbud cfg c henv calls hw x cs hf.2 ht.2
+    have ihx := frag2_sound hd hi hbud cfg c henv hdn fo hw hre hm x cs hf.2 ht.2
     refine frag_to_spec2 (frag_unary cfg cs c m op x hf.1 ht.1.1 ht.1.2 (spec2_to_frag ihx)) ?_
     intro τ h
     have := ht.1.1
@@ -476,9 +565,9 @@ theorem frag2_sound (hd : E .divzero) (hi : E .index) (hbud : E .budget) (cfg : 
     simp only [inFrag2, Bool.and_eq_true] at hf
     simp only [typed2, Bool.and_eq_true] at ht
     obtain ⟨⟨⟨⟨h0, h1⟩, t1⟩, t2⟩, t3⟩ := ht
-    refine spec2_cond cfg c cs m cn a b (frag2_sound hd hi hbud cfg c henv calls hw cn cs hf.1.1 t1)
-      (frag2_sound hd hi hbud cfg c henv calls hw a cs hf.1.2 t2)
-      (frag2_sound hd hi hbud cfg c henv calls hw b cs hf.2 t3) ?_ ?_
+    refine spec2_cond cfg c cs m cn a b (frag2_sound hd hi hbud cfg c henv hdn fo hw hre hm cn cs hf.1.1 t1)
+      (frag2_sound hd hi hbud cfg c henv hdn fo hw hre hm a cs hf.1.2 t2)
+      (frag2_sound hd hi hbud cfg c henv hdn fo hw hre hm b cs hf.2 t3) ?_ ?_
     · intro ct h
       rw [h] at h0; exact h0
     · intro ta tb ha hb
@@ -491,8 +580,8 @@ theorem frag2_sound (hd : E .divzero) (hi : E .index) (hbud : E .budget) (cfg : 
     simp only [typed2, Bool.and_eq_true] at ht
     obtain ⟨⟨hop, hfl⟩, hfr⟩ := hf
     obtain ⟨⟨hcls, htl⟩, htr⟩ := ht
-    have ihl := frag2_sound hd hi hbud cfg c henv calls hw l cs hfl htl
-    have ihr := frag2_sound hd hi hbud cfg c henv calls hw r cs hfr htr
+    have ihl := frag2_sound hd hi hbud cfg c henv hdn fo hw hre hm l cs hfl htl
+    have ihr := frag2_sound hd hi hbud cfg c henv hdn fo hw hre hm r cs hfr htr
     by_cases hfb : fragBinary op = true
     · simp only [hfb, if_true, Bool.and_eq_true] at hcls
       refine frag_to_spec2 (frag_binary hd cfg cs c m op l r hfb hcls.1.2 hcls.2 (spec2_to_frag ihl)
@@ -502,20 +591,27 @@ theorem frag2_sound (hd : E .divzero) (hi : E .index) (hbud : E .budget) (cfg : 
       rw [h] at this; exact this
     · simp only [hfb, Bool.false_eq_true, if_false, Bool.false_or] at hcls hop
       by_cases hin : (op == "in" || op == "not in") = true
-      · simp only [hin, if_true, Bool.and_eq_true] at hcls
+      · simp only [hin, if_true] at hcls
         have hop' : op = "in" ∨ op = "not in" := by simpa using hin
-        refine spec2_in cfg c cs m op l r hop' ihl ihr ?_ ?_
-        · intro t h
-          have := hcls.1; rw [h] at this
-          simp only [vtyOK, Option.isSome_iff_exists] at this
-          exact this
-        · intro t h
-          have := hcls.2; rw [h] at this
-          simp only [sliceVOK] at this
-          cases hv : vtyOf t with
-          | none => rw [hv] at this; cases this
-          | some Vr => rw [hv] at this; exact ⟨Vr, rfl, this⟩
-      · simp only [hin, Bool.false_eq_true, if_false, Bool.and_eq_true] at hcls
+        refine spec2_in cfg c cs m op l r hop' ihl ihr ?_
+        intro lt rt h1 h2
+        rw [h1, h2] at hcls
+        simp only [inOK] at hcls
+        cases hvl : vtyOf lt with
+        | none => rw [hvl] at hcls; cases hcls
+        | some Vl =>
+          cases hvr : vtyOf rt with
+          | none => rw [hvl, hvr] at hcls; cases hcls
+          | some Vr =>
+            rw [hvl, hvr] at hcls
+            simp only [Bool.or_eq_true, Bool.and_eq_true, beq_iff_eq] at hcls
+            refine ⟨Vl, Vr, rfl, rfl, fun a b ha hb => inV_ok ?_ ha hb⟩
+            rcases hcls with h | ⟨h1', h2' | h2'⟩
+            · exact Or.inl h
+            · exact Or.inr ⟨h1', Or.inl h2'⟩
+            · exact Or.inr ⟨h1', Or.inr ⟨rt, h2', by rw [hvr, h2']⟩⟩
+      · simp only [hin, Bool.false_eq_true, if_false] at hcls
+        simp only [Bool.and_eq_true] at hcls
         have hop' : op = ".." ∨ op = "**" := by
           simp only [Bool.or_eq_true, beq_iff_eq] at hop hin
           rcases hop with ((h | h) | h) | h
@@ -535,50 +631,73 @@ theorem frag2_sound (hd : E .divzero) (hi : E .index) (hbud : E .budget) (cfg : 
   | .index m x i, cs, hf, ht => by
     simp only [inFrag2, Bool.and_eq_true] at hf
     simp only [typed2, Bool.and_eq_true] at ht
-    obtain ⟨⟨⟨hsx, hsi⟩, htx⟩, hti⟩ := ht
-    refine spec2_index hi cfg c cs m x i (frag2_sound hd hi hbud cfg c henv calls hw x cs hf.1 htx)
-      (frag2_sound hd hi hbud cfg c henv calls hw i cs hf.2 hti) ?_ ?_
-    · intro t h
-      rw [h] at hsx
-      simp only [sliceOK, Option.isSome_iff_exists] at hsx
-      exact hsx
-    · intro it h
-      rw [h] at hsi
-      simp only [intOK, Bool.and_eq_true] at hsi
-      exact ⟨hsi.1, hsi.2⟩
+    obtain ⟨⟨hcase, htx⟩, hti⟩ := ht
+    have ihx := frag2_sound hd hi hbud cfg c henv hdn fo hw hre hm x cs hf.1 htx
+    have ihi := frag2_sound hd hi hbud cfg c henv hdn fo hw hre hm i cs hf.2 hti
+    by_cases hsl : (sliceOK (synth cfg cs x) && intOK (synth cfg cs i)) = true
+    · simp only [Bool.and_eq_true] at hsl
+      exact spec2_index hi cfg c cs m x i ihx ihi (sliceOK_elim hsl.1) (intOK_elim hsl.2)
+    · simp only [hsl, Bool.false_or] at hcase
+      refine spec2_index_gen cfg c cs m x i ihx ihi ?_
+      intro t it h1 h2
+      rw [h1, h2] at hcase
+      cases hr : synth cfg cs (.index m x i) with
+      | none => rw [hr] at hcase; simp [idxAnyOK] at hcase
+      | some τ0 =>
+        rw [hr] at hcase
+        simp only [idxAnyOK] at hcase
+        cases hvx : vtyOf t with
+        | none => rw [hvx] at hcase; cases hcase
+        | some Vx =>
+          cases hvi : vtyOf it with
+          | none => rw [hvx, hvi] at hcase; cases hcase
+          | some Vi =>
+            cases hvr : vtyOf τ0 with
+            | none => rw [hvx, hvi, hvr] at hcase; cases hcase
+            | some Vr =>
+              rw [hvx, hvi, hvr] at hcase
+              simp only [] at hcase
+              refine ⟨Vx, Vi, rfl, rfl, ?_⟩
+              intro τ V a b hτ hV ha hb
+              cases hτ
+              rw [hvr] at hV
+              cases hV
+              rcases idxAnyV_cases hcase with ⟨rfl, ⟨k, rfl⟩, rfl⟩ | ⟨rfl, rfl, rfl⟩
+              · exact fetch_anys hi ha hb
+              · exact fetch_mapAny false ha hb
   | .slice m x none none, cs, hf, ht => by
     simp only [inFrag2] at hf
     simp only [typed2, Bool.and_eq_true] at ht
-    refine spec2_slice hi cfg c cs m x none none (frag2_sound hd hi hbud cfg c henv calls hw x cs hf ht.2)
+    refine spec2_slice hi cfg c cs m x none none (frag2_sound hd hi hbud cfg c henv hdn fo hw hre hm x cs hf ht.2)
       (fun n h => by cases h) (fun n h => by cases h) (sliceOK_elim ht.1)
       (fun n it h => by cases h) (fun n it h => by cases h)
   | .slice m x (some f) none, cs, hf, ht => by
     simp only [inFrag2, Bool.and_eq_true] at hf
     simp only [typed2, Bool.and_eq_true] at ht
     obtain ⟨⟨⟨h1, h2⟩, h3⟩, h4⟩ := ht
-    refine spec2_slice hi cfg c cs m x (some f) none (frag2_sound hd hi hbud cfg c henv calls hw x cs hf.1 h2)
-      (fun n h => by cases h; exact frag2_sound hd hi hbud cfg c henv calls hw f cs hf.2 h4) (fun n h => by cases h)
+    refine spec2_slice hi cfg c cs m x (some f) none (frag2_sound hd hi hbud cfg c henv hdn fo hw hre hm x cs hf.1 h2)
+      (fun n h => by cases h; exact frag2_sound hd hi hbud cfg c henv hdn fo hw hre hm f cs hf.2 h4) (fun n h => by cases h)
       (sliceOK_elim h1) (fun n it h => by cases h; exact intOK_elim h3 it) (fun n it h => by cases h)
   | .slice m x none (some t), cs, hf, ht => by
     simp only [inFrag2, Bool.and_eq_true] at hf
     simp only [typed2, Bool.and_eq_true] at ht
     obtain ⟨⟨⟨h1, h2⟩, h3⟩, h4⟩ := ht
-    refine spec2_slice hi cfg c cs m x none (some t) (frag2_sound hd hi hbud cfg c henv calls hw x cs hf.1 h2)
-      (fun n h => by cases h) (fun n h => by cases h; exact frag2_sound hd hi hbud cfg c henv calls hw t cs hf.2 h4)
+    refine spec2_slice hi cfg c cs m x none (some t) (frag2_sound hd hi hbud cfg c henv hdn fo hw hre hm x cs hf.1 h2)
+      (fun n h => by cases h) (fun n h => by cases h; exact frag2_sound hd hi hbud cfg c henv hdn fo hw hre hm t cs hf.2 h4)
       (sliceOK_elim h1) (fun n it h => by cases h) (fun n it h => by cases h; exact intOK_elim h3 it)
   | .slice m x (some f) (some t), cs, hf, ht => by
     simp only [inFrag2, Bool.and_eq_true] at hf
     simp only [typed2, Bool.and_eq_true] at ht
     obtain ⟨⟨⟨⟨⟨h1, h2⟩, h3⟩, h4⟩, h5⟩, h6⟩ := ht
-    refine spec2_slice hi cfg c cs m x (some f) (some t) (frag2_sound hd hi hbud cfg c henv calls hw x cs hf.1.1 h2)
-      (fun n h => by cases h; exact frag2_sound hd hi hbud cfg c henv calls hw f cs hf.1.2 h4)
-      (fun n h => by cases h; exact frag2_sound hd hi hbud cfg c henv calls hw t cs hf.2 h6)
+    refine spec2_slice hi cfg c cs m x (some f) (some t) (frag2_sound hd hi hbud cfg c henv hdn fo hw hre hm x cs hf.1.1 h2)
+      (fun n h => by cases h; exact frag2_sound hd hi hbud cfg c henv hdn fo hw hre hm f cs hf.1.2 h4)
+      (fun n h => by cases h; exact frag2_sound hd hi hbud cfg c henv hdn fo hw hre hm t cs hf.2 h6)
       (sliceOK_elim h1) (fun n it h => by cases h; exact intOK_elim h3 it) (fun n it h => by cases h; exact intOK_elim h5 it)
   | .builtin m name [a], cs, hf, ht => by
     simp only [inFrag2, Bool.and_eq_true, beq_iff_eq] at hf
     simp only [typed2, Bool.and_eq_true] at ht
     obtain ⟨rfl, hfa⟩ := hf
-    refine spec2_len cfg c cs m a (frag2_sound hd hi hbud cfg c henv calls hw a cs hfa ht.2) ?_
+    refine spec2_len cfg c cs m a (frag2_sound hd hi hbud cfg c henv hdn fo hw hre hm a cs hfa ht.2) ?_
     intro t h
     have hl := ht.1
     rw [h] at hl
@@ -588,18 +707,22 @@ theorem frag2_sound (hd : E .divzero) (hi : E .index) (hbud : E .budget) (cfg : 
     | some V =>
       rw [hv] at hl
       simp only [Bool.or_eq_true, beq_iff_eq] at hl
-      exact ⟨V, rfl, hl⟩
+      refine ⟨V, rfl, ?_⟩
+      rcases hl with (h | h) | h
+      · exact Or.inl h
+      · exact Or.inr (Or.inl h)
+      · exact Or.inr (Or.inr h)
   | .builtin m name [a, .closure mc b], cs, hf, ht => by
     simp only [inFrag2, Bool.and_eq_true] at hf
     simp only [typed2, Bool.and_eq_true] at ht
     obtain ⟨⟨hname, hfa⟩, hfb⟩ := hf
     obtain ⟨⟨⟨hsa, hta⟩, hdt⟩, hbody⟩ := ht
-    have iha := frag2_sound hd hi hbud cfg c henv calls hw a cs hfa hta
+    have iha := frag2_sound hd hi hbud cfg c henv hdn fo hw hre hm a cs hfa hta
     have ihb : ∀ coll, synth cfg cs a = some coll → Spec2 E cfg c (coll :: cs) b := by
       intro coll hc
       rw [hc] at hbody
       simp only [Bool.and_eq_true] at hbody
-      exact frag2_sound hd hi hbud cfg c henv calls hw b (coll :: cs) hfb hbody.2
+      exact frag2_sound hd hi hbud cfg c henv hdn fo hw hre hm b (coll :: cs) hfb hbody.2
     by_cases hp : isPredBuiltin name = true
     · refine spec2_predBuiltin cfg c cs m mc name a b hp iha ihb (sliceOK_elim hsa) ?_
       intro coll bt hc hb'
@@ -637,48 +760,144 @@ theorem frag2_sound (hd : E .divzero) (hi : E .index) (hbud : E .budget) (cfg : 
       obtain ⟨fn, im⟩ := p
       rw [hft] at ht
       simp only [] at ht
-      refine spec2_func hd cfg c (hw hcalls) cs m name args fast (by rw [hft]; rfl) ?_
+      refine spec2_func hd cfg c (hw hcalls) cs m name args fast (by rw [hft]; rfl) ?_ ?_
+      · intro fn' im' rule h1 h2
+        rw [hft] at h1
+        cases h1
+        rw [h2] at ht
+        cases ht
       intro fn' im' ins variadic numIn offset out h1 h2
       rw [hft] at h1
       cases h1
       rw [h2] at ht
       simp only [] at ht
-      exact frag2_args hd hi hbud cfg c henv calls hw args cs ins variadic numIn offset 0 hfa ht
+      exact frag2_args hd hi hbud cfg c henv hdn fo hw hre hm args cs ins variadic numIn offset 0 hfa ht
+  | .prop m x name ns, cs, hf, ht => by
+    simp only [inFrag2] at hf
+    simp only [typed2, Bool.and_eq_true] at ht
+    have ihx := frag2_sound hd hi hbud cfg c henv hdn fo hw hre hm x cs hf ht.2
+    by_cases hobj : objOK (synth cfg cs x) = true
+    · refine spec2_prop cfg c cs hdn m x name ns ihx ?_
+      intro t h
+      rw [h] at hobj
+      simpa [objOK] using hobj
+    · have hcase := ht.1
+      simp only [hobj, Bool.false_or] at hcase
+      refine spec2_prop_gen cfg c cs m x name ns ihx ?_
+      intro t h
+      rw [h] at hcase
+      cases hr : synth cfg cs (.prop m x name ns) with
+      | none => rw [hr] at hcase; cases hcase
+      | some τ0 =>
+        rw [hr] at hcase
+        simp only [propMapOK, Bool.and_eq_true, beq_iff_eq] at hcase
+        refine ⟨.mapAny, hcase.1, ?_⟩
+        intro τ V a hτ hV ha
+        cases hτ
+        rw [hcase.2] at hV
+        cases hV
+        obtain ⟨kvs, rfl⟩ := ha
+        simp only [fetchV]
+        trivial
+  | .matches m hasRe l r, cs, hf, ht => by
+    simp only [inFrag2, Bool.and_eq_true] at hf
+    simp only [typed2, Bool.and_eq_true] at ht
+    obtain ⟨⟨⟨h1, h2⟩, h3⟩, h4⟩ := ht
+    refine spec2_matches cfg c (hre hf.1.1) cs m hasRe l r
+      (frag2_sound hd hi hbud cfg c henv hdn fo hw hre hm l cs hf.1.2 h3)
+      (frag2_sound hd hi hbud cfg c henv hdn fo hw hre hm r cs hf.2 h4) ?_ ?_
+    · intro t h
+      rw [h] at h1
+      simpa [strOK] using h1
+    · intro t h
+      rw [h] at h2
+      simpa [strOK] using h2
+  | .method m x name args ns, cs, hf, ht => by
+    simp only [inFrag2, Bool.and_eq_true] at hf
+    simp only [typed2, Bool.and_eq_true] at ht
+    obtain ⟨⟨hobj, htx⟩, hrest⟩ := ht
+    refine spec2_method hd cfg c hdn (hm hf.1.1) cs m x name args ns
+      (frag2_sound hd hi hbud cfg c henv hdn fo hw hre hm x cs hf.1.2 htx) ?_ ?_
+    · intro t h
+      rw [h] at hobj
+      simpa [objOK] using hobj
+    · intro t fn im h1 h2
+      rw [h1] at hrest
+      simp only [] at hrest
+      rw [h2] at hrest
+      simp only [] at hrest
+      cases hfp : funcPlan fn im args.length with
+      | inl rule => rw [hfp] at hrest; cases hrest
+      | inr q =>
+        obtain ⟨ins, variadic, numIn, offset, out⟩ := q
+        rw [hfp] at hrest
+        simp only [] at hrest
+        exact ⟨ins, variadic, numIn, offset, out, rfl,
+          frag2_args hd hi hbud cfg c henv hdn fo hw hre hm args cs ins variadic numIn offset 0 hf.2 hrest⟩
+  | .map m ps, cs, hf, ht => by
+    simp only [inFrag2] at hf
+    simp only [typed2] at ht
+    exact spec2_mapLit hbud cfg c cs m ps (frag2_pairs hd hi hbud cfg c henv hdn fo hw hre hm ps cs hf ht)
   | .array m xs, cs, hf, ht => by
     simp only [inFrag2] at hf
     simp only [typed2] at ht
-    exact spec2_array hbud cfg c cs m xs (frag2_elems hd hi hbud cfg c henv calls hw xs cs hf ht)
-  | .nil _, _, hf, _ | .const _ _, _, hf, _ | .matches _ _ _ _, _, hf, _ | .prop _ _ _ _, _, hf, _
-  | .method _ _ _ _ _, _, hf, _
-  | .closure _ _, _, hf, _ | .map _ _, _, hf, _ | .pair _ _ _, _, hf, _ => by
+    exact spec2_array hbud cfg c cs m xs (frag2_elems hd hi hbud cfg c henv hdn fo hw hre hm xs cs hf ht)
+  | .nil _, _, hf, _ | .const _ _, _, hf, _
+  | .closure _ _, _, hf, _ | .pair _ _ _, _, hf, _ => by
     simp [inFrag2] at hf
   | .builtin _ _ [], _, hf, _ => by simp [inFrag2] at hf
   | .builtin _ _ (_ :: _ :: _ :: _), _, hf, _ => by simp [inFrag2] at hf
   | .builtin _ _ [_, .nil _], _, hf, _ => by simp [inFrag2] at hf
 
 theorem frag2_elems (hd : E .divzero) (hi : E .index) (hbud : E .budget) (cfg : CheckCfg) (c : SCfg)
-    (henv : EnvConforms2 cfg c.env) (calls : Bool) (hw : calls = true → WorldConforms E cfg c) :
-    ∀ (xs : List Node) (cs : List OTy), inFrag2L calls xs = true → typed2L cfg cs xs = true →
+    (henv : EnvConforms2 cfg c.env) (hdn : cfg.dn = NDefects.asIs) (fo : FragOpts) (hw : fo.calls = true → WorldConforms E cfg c)
+    (hre : fo.regex = true → RegexTotal c) (hm : fo.methods = true → MethodsConform E cfg c) :
+    ∀ (xs : List Node) (cs : List OTy), inFrag2L fo xs = true → typed2L cfg cs xs = true →
       ElemsOK E cfg c cs xs
   | [], _, _, _ => trivial
   | a :: rest, cs, hf, ht => by
     simp only [inFrag2L, Bool.and_eq_true] at hf
     simp only [typed2L, Bool.and_eq_true] at ht
-    refine ⟨⟨?_, frag2_sound hd hi hbud cfg c henv calls hw a cs hf.1 ht.1.2, ht.1.1⟩,
-      frag2_elems hd hi hbud cfg c henv calls hw rest cs hf.2 ht.2⟩
+    refine ⟨⟨?_, frag2_sound hd hi hbud cfg c henv hdn fo hw hre hm a cs hf.1 ht.1.2, ht.1.1⟩,
+      frag2_elems hd hi hbud cfg c henv hdn fo hw hre hm rest cs hf.2 ht.2⟩
     cases a <;> first | rfl | (simp [inFrag2] at hf)
 
+theorem frag2_pairs (hd : E .divzero) (hi : E .index) (hbud : E .budget) (cfg : CheckCfg) (c : SCfg)
+    (henv : EnvConforms2 cfg c.env) (hdn : cfg.dn = NDefects.asIs) (fo : FragOpts) (hw : fo.calls = true → WorldConforms E cfg c)
+    (hre : fo.regex = true → RegexTotal c) (hm : fo.methods = true → MethodsConform E cfg c) :
+    ∀ (ps : List Node) (cs : List OTy), inFrag2P fo ps = true → typed2P cfg cs ps = true →
+      PairsOK E cfg c cs ps
+  | [], _, _, _ => trivial
+  | .pair m k v :: rest, cs, hf, ht => by
+    simp only [inFrag2P, Bool.and_eq_true] at hf
+    simp only [typed2P, Bool.and_eq_true] at ht
+    obtain ⟨⟨⟨⟨h1, h2⟩, h3⟩, h4⟩, h5⟩ := ht
+    refine ⟨⟨frag2_sound hd hi hbud cfg c henv hdn fo hw hre hm k cs hf.1.1 h3,
+      frag2_sound hd hi hbud cfg c henv hdn fo hw hre hm v cs hf.1.2 h4, ?_, h2⟩,
+      frag2_pairs hd hi hbud cfg c henv hdn fo hw hre hm rest cs hf.2 h5⟩
+    intro kt hk
+    rw [hk] at h1
+    simpa [strOK] using h1
+  | .nil _ :: _, _, h, _ | .ident _ _ _ :: _, _, h, _ | .int _ _ :: _, _, h, _ | .float _ _ :: _, _, h, _
+  | .bool _ _ :: _, _, h, _ | .str _ _ :: _, _, h, _ | .const _ _ :: _, _, h, _ | .unary _ _ _ :: _, _, h, _
+  | .binary _ _ _ _ :: _, _, h, _ | .matches _ _ _ _ :: _, _, h, _ | .prop _ _ _ _ :: _, _, h, _
+  | .index _ _ _ :: _, _, h, _ | .slice _ _ _ _ :: _, _, h, _ | .method _ _ _ _ _ :: _, _, h, _
+  | .func _ _ _ _ :: _, _, h, _ | .builtin _ _ _ :: _, _, h, _ | .closure _ _ :: _, _, h, _
+  | .pointer _ :: _, _, h, _ | .cond _ _ _ _ :: _, _, h, _ | .array _ _ :: _, _, h, _ | .map _ _ :: _, _, h, _ => by
+    simp [inFrag2P] at h
+
 theorem frag2_args (hd : E .divzero) (hi : E .index) (hbud : E .budget) (cfg : CheckCfg) (c : SCfg)
-    (henv : EnvConforms2 cfg c.env) (calls : Bool) (hw : calls = true → WorldConforms E cfg c) :
+    (henv : EnvConforms2 cfg c.env) (hdn : cfg.dn = NDefects.asIs) (fo : FragOpts) (hw : fo.calls = true → WorldConforms E cfg c)
+    (hre : fo.regex = true → RegexTotal c) (hm : fo.methods = true → MethodsConform E cfg c) :
     ∀ (args : List Node) (cs : List OTy) (ins : List Ty) (variadic : Bool) (numIn offset i : Nat),
-      inFrag2L calls args = true → typed2A cfg cs ins variadic numIn offset i args = true →
+      inFrag2L fo args = true → typed2A cfg cs ins variadic numIn offset i args = true →
       ArgsOK E cfg c cs ins variadic numIn offset i args
   | [], _, _, _, _, _, _, _, _ => trivial
   | a :: rest, cs, ins, variadic, numIn, offset, i, hf, ht => by
     simp only [inFrag2L, Bool.and_eq_true] at hf
     simp only [typed2A, Bool.and_eq_true] at ht
-    refine ⟨⟨?_, frag2_sound hd hi hbud cfg c henv calls hw a cs hf.1 ht.1.2, ht.1.1⟩,
-      frag2_args hd hi hbud cfg c henv calls hw rest cs ins variadic numIn offset (i + 1) hf.2 ht.2⟩
+    refine ⟨⟨?_, frag2_sound hd hi hbud cfg c henv hdn fo hw hre hm a cs hf.1 ht.1.2, ht.1.1⟩,
+      frag2_args hd hi hbud cfg c henv hdn fo hw hre hm rest cs ins variadic numIn offset (i + 1) hf.2 ht.2⟩
     cases a <;> first | rfl | (simp [inFrag2] at hf)
 end
 
